@@ -93,7 +93,10 @@ def make_plugin(kind, hooks, idx, log, raise_at=None, exc="Boom"):
     # where the hook methods live does not matter: on the plugin's class, on a base class of it, on a mixin, or
     # on the instance
     _STYLE[0] += 1
-    style = _STYLE[0] % 4
+    style = _STYLE[0] % 5
+    if style == 4 and ns:
+        # a plugin object that is falsy (an empty container that is also a plugin) is a plugin all the same
+        return type("P%d" % idx, (list,) + base, ns)()
     if style == 0 or not ns:
         return type("P%d" % idx, base, ns)()
     if style == 1:
@@ -350,6 +353,32 @@ def doc_checks(ctx):
             if hooks != exp:
                 ctx.fail("document hooks with a %s cache" % ("cold" if round_ == 0 else "warm"), {"round": round_},
                          hooks, exp)
+    finally:
+        shutil.rmtree(d, ignore_errors=True)
+    # warm OBJECT cache (cachingpolicy=1): the init stage runs for every client built, each with its own plugins, and
+    # what one client's plugin did to the loaded WSDL is not handed to the next client
+    d = tempfile.mkdtemp(prefix="verif-c16-")
+    try:
+        seen = []
+        for round_ in (0, 1, 2):
+            log = []
+
+            class Marker(suds.plugin.InitPlugin):
+                def initialized(self, context, round_=round_):
+                    seen.append((round_, getattr(context.wsdl, "verif_mark", None)))
+                    context.wsdl.verif_mark = round_
+            plugins = [make_plugin("init", ["initialized"], 0, log), Marker()]
+            store = suds.store.DocumentStore()
+            store.update({"main.wsdl": w, "inc.xsd": inc})
+            suds.client.Client("suds://main.wsdl", documentStore=store, plugins=plugins,
+                               cache=suds.cache.ObjectCache(location=d), cachingpolicy=1)
+            ctx.case(("object-cache-init", round_), True)
+            if [h for _i, h, _u in log] != ["initialized"]:
+                ctx.fail("the init stage does not run once for a client built over a %s object cache"
+                         % ("cold" if round_ == 0 else "warm"), {"round": round_}, [h for _i, h, _u in log], ["initialized"])
+        if seen != [(0, None), (1, None), (2, None)]:
+            ctx.fail("an init plugin's edit of one client's WSDL reached a later client through the object cache",
+                     {"stream": "object-cache-init"}, seen, [(0, None), (1, None), (2, None)])
     finally:
         shutil.rmtree(d, ignore_errors=True)
 
